@@ -42,7 +42,9 @@ func (c *Ctx) pathsInlined(fn *ssa.Function, opts core.PathOpts, interesting fun
 		}
 		return g
 	}
-	enum := func(g *ssa.Function) ([]*core.Path, error) { return core.EnumPaths(g, core.PathOpts{Assume: opts.Assume}) }
+	enum := func(g *ssa.Function) ([]*core.Path, error) {
+		return core.EnumPaths(g, core.PathOpts{Assume: opts.Assume})
+	}
 	return core.ExpandInline(paths, pick, enum, 3, 300000)
 }
 
@@ -85,6 +87,8 @@ func (c *Ctx) pathsInlinedPkg(fn *ssa.Function, opts core.PathOpts, skip func(*s
 		}
 		return g
 	}
-	enum := func(g *ssa.Function) ([]*core.Path, error) { return core.EnumPaths(g, core.PathOpts{Assume: opts.Assume}) }
+	enum := func(g *ssa.Function) ([]*core.Path, error) {
+		return core.EnumPaths(g, core.PathOpts{Assume: opts.Assume})
+	}
 	return core.ExpandInline(paths, pick, enum, 3, 300000)
 }
